@@ -14,6 +14,9 @@ pub enum End {
     Quiet, // peer stays connected and silent
     Eof,   // peer closes cleanly
     Abort, // peer dies / resets
+    /// SSH only: the peer sends CHANNEL_EOF but neither CHANNEL_CLOSE nor a TCP close (e.g. an sshd
+    /// whose subsystem process exited while a child still holds its descriptors)
+    EofHold,
 }
 
 #[derive(Clone, Debug)]
@@ -33,6 +36,7 @@ impl Case {
                 End::Quiet => "quiet",
                 End::Eof => "eof",
                 End::Abort => "abort",
+                End::EofHold => "eofhold",
             }
         )
     }
@@ -46,6 +50,7 @@ impl Case {
             "quiet" => End::Quiet,
             "eof" => End::Eof,
             "abort" => End::Abort,
+            "eofhold" => End::EofHold,
             _ => return None,
         };
         Some(Case { transport: p[0].into(), chunks, end })
@@ -118,7 +123,7 @@ fn cli_script(case: &Case, gap_ms: u64) -> Vec<String> {
     }
     match case.end {
         End::Quiet => v.push("hang".into()),
-        End::Eof => v.push("eof".into()),
+        End::Eof | End::EofHold => v.push("eof".into()),
         End::Abort => v.push("abort".into()),
     }
     v
@@ -252,7 +257,8 @@ pub fn gen_cases(transport: &str, opts: &Opts, rng: &mut Rng) -> Vec<Case> {
         }
         if si < 6 || thorough {
             for &cp in &close_points {
-                for end in [End::Eof, End::Abort] {
+                let ends: Vec<End> = if transport == "ssh" { vec![End::Eof, End::Abort, End::EofHold] } else { vec![End::Eof, End::Abort] };
+                for end in ends {
                     let pre = &s[..cp];
                     let cuts: Vec<usize> = if pre.len() > 3 { vec![rng.below(pre.len())] } else { vec![] };
                     let chunks = if pre.is_empty() { vec![] } else { cut(pre, &cuts) };
@@ -309,7 +315,7 @@ pub fn main(opts: &Opts) {
     });
     for (c, o) in cases.iter().zip(obs) {
         let d = c.descr();
-        let state = match c.end { End::Quiet => "open", End::Eof => "closed", End::Abort => "aborted" };
+        let state = match c.end { End::Quiet => "open", End::Eof | End::EofHold => "closed", End::Abort => "aborted" };
         // after an abortive close the bytes the client saw are not determined by the script
         let complete = c.end != End::Abort || o.msgs.concat().len() + crate::frame::MARKER.len() > c.stream().len();
         let is_ssh = c.transport == "ssh";
@@ -318,7 +324,7 @@ pub fn main(opts: &Opts) {
             let mut evs: Vec<String> = c.chunks.iter().map(|b| format!("d{}", hex(b))).collect();
             match c.end {
                 End::Quiet => {}
-                End::Eof => evs.push("e".into()),
+                End::Eof | End::EofHold => evs.push("e".into()),
                 End::Abort => evs.push("c".into()),
             }
             if complete { sink.corr(&d, format!("frame pumpobs fixed {}", list(&evs)), impl_obs.clone()); }
@@ -326,7 +332,7 @@ pub fn main(opts: &Opts) {
             let mut rs: Vec<String> = c.chunks.iter().map(|b| format!("d{}", hex(b))).collect();
             match c.end {
                 End::Quiet => {}
-                End::Eof => rs.push("e".into()),
+                End::Eof | End::EofHold => rs.push("e".into()),
                 End::Abort => rs.push("x".into()),
             }
             if complete { sink.corr(&d, format!("frame recvobs fixed {}", list(&rs)), impl_obs.clone()); }
